@@ -181,7 +181,7 @@ def scf_key(case):
     return REC.fingerprint({k: case[k] for k in ("atoms", "q", "spin", "basis", "uhf")})
 
 
-def get_molecule(case, rec=None):
+def get_molecule(case, rec=None, fresh=False):
     """SecondQuantizedMolecule for the case. The mean field (SCF) is computed once per process and geometry/charge/
     spin/basis/reference and re-used; the frozen-orbital choice is applied with freeze_mos(..., inplace=False), which is
     what SecondQuantizedMolecule.__post_init__ does with its frozen_orbitals argument.  Raises vlib.runner.Skip for
@@ -189,7 +189,7 @@ def get_molecule(case, rec=None):
     from tangelo import SecondQuantizedMolecule
     from .runner import Skip
     key = scf_key(case)
-    base = _MOL_CACHE.get(key)
+    base = None if fresh else _MOL_CACHE.get(key)     # fresh=True: private mean field (the caller is going to change mo_coeff)
     if base is None:
         xyz = [(a, tuple(float(c) for c in p)) for a, p in case["atoms"]]
         try:
@@ -199,7 +199,8 @@ def get_molecule(case, rec=None):
             if "did not converge" not in str(e):
                 raise
             base = "scf-not-converged"
-        _MOL_CACHE[key] = base
+        if not fresh:
+            _MOL_CACHE[key] = base
         while len(_MOL_CACHE) > _MOL_CACHE_MAX:
             _MOL_CACHE.popitem(last=False)
         if rec is not None:
